@@ -101,7 +101,7 @@ def seg_cfg(name, spec, c, invariants, properties=(), view=None, constraint=None
     return cb.write_cfg(name + ".cfg", "\n".join(t) + "\n")
 
 
-def mc(rep, name, c, wprog, rprog, invariants, properties=(), spec="Spec", workers=8, timeout=900, extra=""):
+def mc(rep, name, c, wprog, rprog, invariants, properties=(), spec="Spec", workers=8, timeout=3600, extra=""):
     mod = seg_module("X_" + name, "MC_seg", wprog, rprog, extra)
     cfg = seg_cfg("X_" + name, spec, c, invariants, properties)
     r = cb.tlc(mod, cfg, name, workers=workers, timeout=timeout)
